@@ -76,6 +76,66 @@ def grid_unescape():
     return out
 
 
+def _timerange_cases():
+    """the four RFC 4791 section 9.9 functions on stand-in components (objects with `.get(NAME)` whose
+    values have a `.dt`): every presence pattern x value kind x a small grid of instants"""
+    import datetime as dtm
+    import random
+    import types
+    from xandikos import icalendar as xi
+    UTC = dtm.timezone.utc
+    DAY = 86400
+    epoch = dtm.datetime(2020, 1, 1, tzinfo=UTC)
+
+    def val(code):                     # "~" | "D<k>" | "T<k>"  (k in seconds from the epoch, D: multiple of a day)
+        if code == "~":
+            return None
+        k = int(code[1:])
+        if code[0] == "D":
+            return types.SimpleNamespace(dt=(epoch + dtm.timedelta(seconds=k)).date())
+        return types.SimpleNamespace(dt=epoch + dtm.timedelta(seconds=k))
+
+    def tzify(d):
+        if not isinstance(d, dtm.datetime):
+            d = dtm.datetime.combine(d, dtm.time())
+        if d.tzinfo is None:
+            d = d.replace(tzinfo=UTC)
+        return d
+
+    class Comp(dict):
+        pass
+    rng = random.Random(7)
+    inst = [0, DAY // 2, DAY, DAY + 3600, 2 * DAY, 3 * DAY]
+    codes = ["~"] + ["T%d" % i for i in inst[:5]] + ["D%d" % i for i in (0, DAY, 2 * DAY)]
+    durs = ["~", "0", "3600", str(DAY), "-3600"]
+    fbs = ["-", "0:3600", "%d:%d" % (DAY, DAY + 3600), "0:3600,%d:%d" % (2 * DAY, 3 * DAY)]
+    out = []
+    funcs = {"vevent": xi.apply_time_range_vevent, "vjournal": xi.apply_time_range_vjournal,
+             "vtodo": xi.apply_time_range_vtodo, "vfreebusy": xi.apply_time_range_vfreebusy}
+    for kind, fn in funcs.items():
+        for _ in range(700):
+            st, en = sorted(rng.sample(inst, 2))
+            c = {k: rng.choice(codes) if rng.random() < 0.6 else "~" for k in ("DTSTART", "DTEND", "DUE", "COMPLETED", "CREATED")}
+            dur = rng.choice(durs) if rng.random() < 0.4 else "~"
+            fb = rng.choice(fbs) if kind == "vfreebusy" else "-"
+            comp = Comp()
+            for k, code in c.items():
+                if code != "~":
+                    comp[k] = val(code)
+            if dur != "~":
+                comp["DURATION"] = types.SimpleNamespace(dt=dtm.timedelta(seconds=int(dur)))
+            if fb != "-":
+                ps = [types.SimpleNamespace(start=epoch + dtm.timedelta(seconds=int(a)), end=epoch + dtm.timedelta(seconds=int(b)))
+                      for a, b in (p.split(":") for p in fb.split(","))]
+                comp["FREEBUSY"] = ps if len(ps) > 1 else ps[0]
+            s_dt, e_dt = epoch + dtm.timedelta(seconds=st), epoch + dtm.timedelta(seconds=en)
+            want = _pybool(lambda: fn(s_dt, e_dt, comp, tzify))
+            line = "tr %s %d %d %s %s %s %s %s %s %s" % (kind, st, en, c["DTSTART"], c["DTEND"], c["DUE"], c["COMPLETED"],
+                                                       c["CREATED"], dur, fb)
+            out.append(("icalendar.apply_time_range_" + kind, line, want, (kind, st, en, c, dur, fb)))
+    return out
+
+
 def _pybool(f):
     try:
         return "1" if f() else "0"
@@ -138,6 +198,8 @@ def cases(modules):
             except Exception as e:   # noqa: BLE001
                 want = "raise:" + type(e).__name__
             out.append(("wsgi_helpers.WellknownRedirector.__call__", "wk %s %s" % (enc(sc), enc(pi)), want, (sc, pi)))
+    if "TimeRange" in modules:
+        out.extend(_timerange_cases())
     if "PathMap" in modules:
         from xandikos.web import XandikosBackend
         for root, rel in grid_mapfs():
@@ -174,8 +236,12 @@ def validate(chk, modules):
         return False
     bad = {}
     per = {}
+    dist = {}
     for (fn, line, want, args), g in zip(cs, got):
         per[fn] = per.get(fn, 0) + 1
+        kind = want if want in ("0", "1", "~") or want.startswith("raise:") else "value"
+        dist.setdefault(fn, {}).setdefault(kind, 0)
+        dist[fn][kind] += 1
         # compare decoded texts (the two sides may percent-encode differently)
         same = (g == want) or (g[:1] in "=~" and want[:1] in "=~" and
                                [dec("=" + x) for x in g[1:].split(",")] == [dec("=" + x) for x in want[1:].split(",")]
@@ -185,6 +251,7 @@ def validate(chk, modules):
             bad.setdefault(fn, []).append({"args": args, "python": want, "generated": g})
     info["status"] = "ok" if not bad else "disagreements"
     info["cases"] = per
+    info["outcome_distribution"] = dist
     chk.count("translator_validation_cases", len(cs))
     for fn, items in bad.items():
         chk.broke("translator validation " + fn,
